@@ -8,6 +8,7 @@ import (
 	"testing"
 	"time"
 
+	"github.com/cosmos/cosmos-sdk/types/query"
 	"pgregory.net/rapid"
 
 	ophosttypes "github.com/initia-labs/OPinit/x/ophost/types"
@@ -102,9 +103,15 @@ func c10Queries(w *l1World) error {
 		if err != nil || seq.NextL1Sequence != b.NextSeq {
 			return fmt.Errorf("bridge %d: NextL1Sequence query = %v (err %v), model %d (1 + successful deposits)", id, seq, err, b.NextSeq)
 		}
-		tp, err := e.Q.TokenPairs(e.Ctx, &ophosttypes.QueryTokenPairsRequest{BridgeId: id})
+		tp, err := e.Q.TokenPairs(e.Ctx, &ophosttypes.QueryTokenPairsRequest{BridgeId: id, Pagination: &query.PageRequest{Limit: 100000}})
 		if err != nil {
 			return err
+		}
+		for l2, l1 := range b.Pairs {
+			one, err := e.Q.TokenPairByL2Denom(e.Ctx, &ophosttypes.QueryTokenPairByL2DenomRequest{BridgeId: id, L2Denom: l2})
+			if err != nil || one.TokenPair.L1Denom != l1 {
+				return fmt.Errorf("bridge %d: a deposit of %s was accepted, TokenPairByL2Denom(%s) = %v, %v", id, l1, l2, one, err)
+			}
 		}
 		if len(tp.TokenPairs) != len(b.Pairs) {
 			return fmt.Errorf("bridge %d: TokenPairs lists %d pairs, model has %d", id, len(tp.TokenPairs), len(b.Pairs))
@@ -130,7 +137,19 @@ func TestC10Rapid(t *testing.T) {
 		earlyTarget := map[uint64]bool{} // ids that were deposited to before they existed
 		lateCreated := false
 		shape := ""
+		bulkAt := -1
+		if rapid.IntRange(0, 14).Draw(rt, "bulk") == 0 {
+			bulkAt = rapid.IntRange(1, 25).Draw(rt, "bulkAt")
+		}
 		repeatSteps(rt, 35, func(i int) {
+			if i == bulkAt && len(w.ids) > 0 {
+				// a bridge that has seen far more than a page of distinct tokens
+				w.bulkDenoms(rt, w.bridges[w.ids[0]], rapid.IntRange(101, 140).Draw(rt, "bulkN"))
+				c.Class("bridge-with-more-than-100-token-pairs")
+				if err := c10Queries(w); err != nil {
+					rt.Fatalf("C10 violated after the bulk deposits: %v\nhistory:\n%s", err, w.history())
+				}
+			}
 			preBal, preDigest := w.balances(), w.e.Digest()
 			var seqBefore uint64
 			st := w.step(rt)
@@ -188,4 +207,58 @@ func TestC10Rapid(t *testing.T) {
 		c.Sample(func() interface{} { return map[string]interface{}{"history": w.log} })
 		c.Done()
 	})
+}
+
+// TestC10GenesisGap: a chain started from a genesis in which a bridge id below next_bridge_id has no
+// bridge (ids 1 and 3 of three exported bridges; genesis validation accepts it): deposits into the
+// gap and beyond the counter are refused without effect, deposits into the real bridges work and
+// count from where the genesis says.
+func TestC10GenesisGap(t *testing.T) {
+	rec := evid.For("C10")
+	src := henv.NewL1(henv.L1Options{NoHook: true})
+	u := henv.MakeUser("c10-gap")
+	src.Fund(u.Addr, coinOf("uinit", 1000))
+	for i := 0; i < 3; i++ {
+		if r := src.Deliver(ophosttypes.NewMsgCreateBridge(u.Str, henv.DefaultBridgeConfig(u.Str, u.Str, time.Minute))); !r.OK() {
+			t.Fatal(r.Err)
+		}
+	}
+	if r := src.Deliver(ophosttypes.NewMsgInitiateTokenDeposit(u.Str, 3, u.Str, coinOf("uinit", 5), nil)); !r.OK() {
+		t.Fatal(r.Err)
+	}
+	gs := src.K.ExportGenesis(src.Ctx)
+	var kept []ophosttypes.Bridge
+	for _, b := range gs.Bridges {
+		if b.BridgeId != 2 {
+			kept = append(kept, b)
+		}
+	}
+	gs.Bridges = kept
+	if err := ophosttypes.ValidateGenesis(gs, src.AK.AddressCodec()); err != nil {
+		t.Skipf("genesis with a gap does not validate (%v): not a state a chain can start from", err)
+	}
+	e := importL1(src, gs)
+	for _, tcase := range []struct {
+		id   uint64
+		want bool
+		seq  uint64
+	}{{2, false, 0}, {4, false, 0}, {1, true, 1}, {3, true, 2}, {2, false, 0}} {
+		before := e.Digest()
+		r := e.Deliver(ophosttypes.NewMsgInitiateTokenDeposit(u.Str, tcase.id, u.Str, coinOf("uinit", 7), nil))
+		id := fmt.Sprintf("genesis-gap/id=%d", tcase.id)
+		if r.OK() != tcase.want {
+			caseFail(t, id, "C10 violated: after starting from a genesis with bridges 1 and 3 (next id 4), a deposit into bridge id %d: accepted=%v (%v), a bridge exists there: %v", tcase.id, r.OK(), r.Err, tcase.want)
+		}
+		if !r.OK() && e.Digest() != before {
+			caseFail(t, id, "C10 violated: a refused deposit into bridge id %d changed state", tcase.id)
+		}
+		if r.OK() {
+			if got := r.Resp.(*ophosttypes.MsgInitiateTokenDepositResponse).Sequence; got != tcase.seq {
+				caseFail(t, id, "C10 violated: deposit into bridge %d after the genesis start got sequence %d, want %d", tcase.id, got, tcase.seq)
+			}
+		}
+		c := rec.Begin()
+		c.Class("deposit-after-genesis-with-a-gap-in-bridge-ids")
+		c.Done()
+	}
 }
